@@ -13,7 +13,7 @@ def kind(t):
 
 
 def gen_type(rng, depth):
-    if depth <= 0 or rng.chance(2, 5):
+    if depth <= 0 or rng.chance(1, 4):
         return rng.choice(SCALARS)
     k = rng.below(4)
     if k == 0:
@@ -177,7 +177,7 @@ def gen_cases(rng, tier, n):
     cases = []
     nval = n * 5 // 10
     for i in range(nval):
-        t = gen_type(rng, rng.range(0, 3 if tier == "quick" else 4))
+        t = gen_type(rng, rng.range(0 if i % 4 == 0 else 1, 3 if tier == "quick" else 4))
         v = gen_val(rng, t)
         cases.append({"k": "val", "ty": t, "v": v, "mbytes": py_encode(t, v)})
     for i in range(n // 10):
